@@ -92,16 +92,17 @@ Acquires(nev) == nev >= P.ninit
 NewSrc(nev, gpn, optd) == IF Acquires(nev) THEN [t |-> nev - P.ninit, k |-> 1, seen |-> gpn, pend |-> 0, opt |-> optd] ELSE NoSrc
 AcqRec(s, first) == [t |-> s.t, seen |-> s.seen, pend |-> s.pend, first |-> first, opt |-> s.opt]
 
-MinOf(X) == CHOOSE x \in X : \A y \in X : x <= y
+\* a field that the kind does not use takes ONE canonical value of its set
+Canon(X) == CHOOSE x \in X : TRUE
 Configs ==
   {p \in [kind : Kinds, maxpar : MaxPars, bs : BSs, k : Ks, ninit : NInits, npre : NPres, bpa : BPAs, upd : Upds, async : Asyncs,
           o1 : BoO1s \cup MbO1s, o2 : BoO2s \cup MbO2s, gate : Gates, reinit : ReInits] :
-     /\ p.kind = "bo" => /\ p.k = 1 /\ p.gate /\ p.reinit /\ p.o1 \in BoO1s /\ p.o2 \in BoO2s
+     /\ p.kind = "bo" => /\ p.k = Canon(Ks) /\ p.gate = Canon(Gates) /\ p.reinit = Canon(ReInits) /\ p.o1 \in BoO1s /\ p.o2 \in BoO2s
                          /\ (p.npre > 0 => p.ninit = p.npre)                  \* a precomputed dict IS the initial evidence
                          /\ (p.npre = 0 => p.ninit % p.bs = 0)                 \* an integer is rounded up to a multiple of batch_size
-     /\ p.kind # "bo" => /\ p.npre = 0 /\ p.bpa = 1 /\ ~p.async /\ p.o1 \in MbO1s /\ p.o2 \in MbO2s
-     \* BSL has no surrogate: one (irrelevant) value of n_initial_evidence / update_interval
-     /\ p.kind = "bsl" => p.ninit = MinOf(NInits) /\ p.upd = MinOf(Upds) /\ p.reinit}
+     /\ p.kind # "bo" => /\ p.npre = Canon(NPres) /\ p.bpa = Canon(BPAs) /\ p.async = Canon(Asyncs) /\ p.o1 \in MbO1s /\ p.o2 \in MbO2s
+     \* BSL has no surrogate
+     /\ p.kind = "bsl" => p.ninit = Canon(NInits) /\ p.upd = Canon(Upds) /\ p.reinit}
 
 Init == /\ P \in Configs
         /\ pc = "idle" /\ call = 0 /\ next = 0 /\ pending = <<>> /\ tasks = {} /\ nextId = 0 /\ removed = {}
